@@ -381,6 +381,47 @@ func c12(c *ctx) {
 		}
 	}
 	// ---- (e) frame helpers
+	hn := 0
+	// Helper.Compress / CompressTo as a message: judged like the writer's output
+	for _, pn := range names {
+		msg := pcs[pn]
+		for li, level := range []int{1, 9} {
+			key := fmt.Sprintf("deflate/helper/%s/%d", pn, level)
+			if !vh.OnlyGroup(key) {
+				continue
+			}
+			hp := &wsflate.Helper{
+				Compressor:   func(w io.Writer) wsflate.Compressor { fw, _ := flate.NewWriter(w, level); return fw },
+				Decompressor: func(r io.Reader) wsflate.Decompressor { return flate.NewReader(r) },
+			}
+			var wire []byte
+			var err error
+			if li == 0 {
+				wire, err = hp.Compress(msg)
+			} else {
+				var b bytes.Buffer
+				err = hp.CompressTo(&b, msg)
+				wire = b.Bytes()
+			}
+			id++
+			wf := filepath.Join(c.dir, fmt.Sprintf("wire_%d.bin", id))
+			mf := filepath.Join(c.dir, fmt.Sprintf("msg_%d.bin", id))
+			os.WriteFile(wf, wire, 0o644)
+			os.WriteFile(mf, msg, 0o644)
+			var back []byte
+			var derr error
+			if li == 0 {
+				back, derr = hp.Decompress(wire)
+			} else {
+				var b bytes.Buffer
+				derr = hp.DecompressTo(&b, wire)
+				back = b.Bytes()
+			}
+			kind, _ := rerr(err)
+			emit(map[string]interface{}{"k": "deflate", "key": key + "/bytes", "wire": wf, "msg": mf, "err": kind, "inflateOK": false,
+				"selfReadOK": derr == nil && bytes.Equal(back, msg), "flushes": 1}, fmt.Sprintf("deflate/helper/%s/%d", pn, level))
+		}
+	}
 	for _, pn := range names {
 		msg := pcs[pn]
 		if len(msg) > 5000 {
@@ -394,15 +435,45 @@ func c12(c *ctx) {
 						continue
 					}
 					f := ws.Frame{Header: ws.Header{Fin: fin, Rsv: byte(rsv), OpCode: ws.OpCode(op), Length: int64(len(msg)), Masked: false}, Payload: append([]byte(nil), msg...)}
-					cf, cerr := wsflate.CompressFrame(f)
+					// the API forms rotate: package-level functions, an own Helper (other level), the
+					// Buffer variants with one buffer per direction
+					hn++
+					own := &wsflate.Helper{
+						Compressor:   func(w io.Writer) wsflate.Compressor { fw, _ := flate.NewWriter(w, []int{1, 9, -2}[hn%3]); return fw },
+						Decompressor: func(r io.Reader) wsflate.Decompressor { return flate.NewReader(r) },
+					}
+					var cbuf, dbuf, pbuf bytes.Buffer
+					compress := func(x ws.Frame) (ws.Frame, error) {
+						switch hn % 4 {
+						case 0:
+							return wsflate.CompressFrame(x)
+						case 1:
+							return own.CompressFrame(x)
+						case 2:
+							return wsflate.CompressFrameBuffer(&cbuf, x)
+						}
+						return own.CompressFrameBuffer(&cbuf, x)
+					}
+					decompress := func(x ws.Frame, buf *bytes.Buffer) (ws.Frame, error) {
+						switch hn % 4 {
+						case 0:
+							return wsflate.DecompressFrame(x)
+						case 1:
+							return own.DecompressFrame(x)
+						case 2:
+							return wsflate.DecompressFrameBuffer(buf, x)
+						}
+						return own.DecompressFrameBuffer(buf, x)
+					}
+					cf, cerr := compress(f)
 					var df ws.Frame
 					var derr error
 					if cerr == nil {
-						df, derr = wsflate.DecompressFrame(cf)
+						df, derr = decompress(cf, &dbuf)
 					} else {
-						_, derr = wsflate.DecompressFrame(ws.Frame{Header: ws.Header{Fin: fin, Rsv: byte(rsv | 4), OpCode: ws.OpCode(op)}, Payload: []byte{0}})
+						_, derr = decompress(ws.Frame{Header: ws.Header{Fin: fin, Rsv: byte(rsv | 4), OpCode: ws.OpCode(op)}, Payload: []byte{0}}, &dbuf)
 					}
-					pf, perr := wsflate.DecompressFrame(f) // no RSV1: returned as it is
+					pf, perr := decompress(f, &pbuf) // no RSV1: returned as it is
 					emit(map[string]interface{}{"k": "helper", "key": key, "fin": fin, "op": op, "rsv": rsv, "masked": false,
 						"cerr": cerr != nil, "derr": derr != nil, "perr": perr != nil, "crsv": int(cf.Header.Rsv), "cop": int(cf.Header.OpCode), "cfin": cf.Header.Fin, "cmasked": cf.Header.Masked,
 						"clenOK": cf.Header.Length == int64(len(cf.Payload)), "dlenOK": df.Header.Length == int64(len(df.Payload)),
